@@ -793,26 +793,32 @@ func init() {
 	formats = []*format{
 		{name: "fasta", decOp: "fa.dec", decode: decFasta,
 			file:       func(p string, s, l int) ([]string, string) { return collect(fasta.File(p), faS, s, l) },
+			fileTwice:  func(p string, l int) ([]string, []string, string) { return twice(fasta.File(p), faS, l) },
 			wellFormed: func(c *Ctx) []byte { return fastaWrite(c.fastaRecs()) },
 			malformed:  func(c *Ctx) []byte { return c.fastaMalformed() }},
 		{name: "fastq", decOp: "fq.dec", decode: decFastq,
 			file:       func(p string, s, l int) ([]string, string) { return collect(fastq.File(p), fqS, s, l) },
+			fileTwice:  func(p string, l int) ([]string, []string, string) { return twice(fastq.File(p), fqS, l) },
 			wellFormed: func(c *Ctx) []byte { return fastqWrite(c.fastqRecs()) },
 			malformed:  func(c *Ctx) []byte { return c.fastqMalformed() }},
 		{name: "sam", decOp: "sam.dec", decode: decSam,
 			file:       func(p string, s, l int) ([]string, string) { return collect(sam.File(p), samS, s, l) },
+			fileTwice:  func(p string, l int) ([]string, []string, string) { return twice(sam.File(p), samS, l) },
 			wellFormed: func(c *Ctx) []byte { hs, rs := c.samFile(); return samWrite(hs, rs) },
 			malformed:  func(c *Ctx) []byte { return c.samMalformed() }},
 		{name: "samh", decOp: "sam.dech", decode: decSamH,
 			file:       func(p string, s, l int) ([]string, string) { return collect(sam.FileHeader(p), shS, s, l) },
+			fileTwice:  func(p string, l int) ([]string, []string, string) { return twice(sam.FileHeader(p), shS, l) },
 			wellFormed: func(c *Ctx) []byte { hs, rs := c.samFile(); return samWrite(hs, rs) },
 			malformed:  func(c *Ctx) []byte { return c.samMalformed() }},
 		{name: "bed", decOp: "bed.dec", decode: decBed,
 			file:       func(p string, s, l int) ([]string, string) { return collect(bed.File(p), bedS, s, l) },
+			fileTwice:  func(p string, l int) ([]string, []string, string) { return twice(bed.File(p), bedS, l) },
 			wellFormed: func(c *Ctx) []byte { return bedWrite(c.bedRecs()) },
 			malformed:  func(c *Ctx) []byte { return c.bedMalformed() }},
 		{name: "newick", decOp: "nwk.dec", decode: decNewick,
 			file:       func(p string, s, l int) ([]string, string) { return collect(newick.File(p), treeS, s, l) },
+			fileTwice:  func(p string, l int) ([]string, []string, string) { return twice(newick.File(p), treeS, l) },
 			wellFormed: func(c *Ctx) []byte { ts, seps := c.nwkTrees(); return nwkWrite(ts, seps) },
 			malformed:  func(c *Ctx) []byte { return c.nwkMalformed() }},
 	}
